@@ -277,6 +277,12 @@ fn phi_changes(phi: f64, rng: &mut ChaCha20Rng) -> Vec<(&'static str, f64, Expec
         ("complement", 1.0 - phi),
     ];
     cands.retain(|(_, x)| (0.0..=1.0).contains(x) && x.to_bits() != phi.to_bits());
+    // values outside the fixed-point range (8 integer bits): whatever the conversion does with
+    // them (a production build of the `fixed` crate wraps), they are not the original value at any
+    // precision
+    for (t, x) in [("+256 (outside the fixed-point range)", phi + 256.0), ("+512 (outside the fixed-point range)", phi + 512.0), ("+2^32 (outside the fixed-point range)", phi + 4294967296.0), ("-256 (outside the fixed-point range)", phi - 256.0)] {
+        cands.push((t, x));
+    }
     let base = phi_fixed_bits(phi);
     cands
         .into_iter()
